@@ -118,15 +118,18 @@ def make_classes(tree: Dict[str, Any], url: str):
             "STATE_VARIABLE_DEFINITIONS": {},
         })
 
-    def dev_class(node: Dict[str, Any]):
+    def dev_class(node: Dict[str, Any], is_root: bool = True):
         counter[0] += 1
         n = counter[0]
-        kids = [dev_class(k) for k in node.get("kids", [])]
+        kids = [dev_class(k, False) for k in node.get("kids", [])]
         return type(f"Dev{n}", (UpnpServerDevice,), {
             "DEVICE_DEFINITION": DeviceInfo(
                 device_type=node["type"], friendly_name="f", manufacturer="m", manufacturer_url=None, model_name="n",
                 model_url=None, udn=node["udn"], upc=None, model_description="d", model_number="1", serial_number="1",
-                presentation_url=None, url=url, icons=[], xml=ET.Element("server_device")),
+                # an embedded device may carry its own DeviceInfo.url (also empty / relative); the tree is described,
+                # answered for and advertised at ONE location: the root's
+                presentation_url=None, url=url if is_root else node.get("url", url), icons=[],
+                xml=ET.Element("server_device")),
             "EMBEDDED_DEVICES": kids,
             "SERVICES": [svc_class(ty, sid) for ty, sid in svc_pairs(node)],
         })
@@ -231,6 +234,8 @@ def tree_tags(device) -> List[str]:
         out.append("tree:device-type-equals-service-type")
     if len({d.udn.lower() for d in devs}) < len(devs):
         out.append("tree:shared-udn")
+    if any(d.device_url != device.device_url for d in devs):
+        out.append("tree:embedded-device-with-own-url")
     for d in devs:
         kt = [k.device_type for k in d.embedded_devices.values()]
         if len(set(kt)) < len(kt):
@@ -616,6 +621,9 @@ def rand_tree(rng: random.Random, depth: int = 0, used=None) -> Dict[str, Any]:
                  for _ in range(rng.randrange(0, 4))],
         "kids": [],
     }
+    if depth > 0 and rng.random() < 0.6:
+        node["url"] = rng.choice(["/emb.xml", "/desc/embedded.xml", "", "emb.xml", "../e.xml", "/device.xml#e",
+                                  f"/dev{rng.randrange(100)}.xml", "http://192.168.1.5:9/other.xml"])
     if depth < 3:
         nk = rng.choice([0, 0, 1, 1, 2, 3]) if depth == 0 else rng.choice([0, 0, 0, 1, 2])
         node["kids"] = [rand_tree(rng, depth + 1, used) for _ in range(nk)]
@@ -835,6 +843,18 @@ CORPUS += [
     # round 5: a server whose description URL the listener refuses (other spellings of loopback): answered, but ignored
     {"tree": _ROOT, "base": b, "ops": [["search", {"st": "ssdp:all"}], ["astart"], ["advance", 31000], ["astop"]]}
     for b in ("http://127.0.0.2:8000", "http://localhost:8000", "http://[::1]:8000")
+]
+
+
+CORPUS += [
+    # round 6: embedded devices with their own DeviceInfo.url (different / empty / relative): every answer and every
+    # advertisement still carries the ROOT description URL
+    {"tree": _t("uuid:root", "urn:schemas-upnp-org:device:Root:1", ["urn:schemas-upnp-org:service:A:3"],
+                [dict(_t("uuid:emb", "urn:schemas-upnp-org:device:Emb:2", ["urn:schemas-upnp-org:service:B:1"],
+                         [dict(_t("uuid:leaf", "urn:schemas-upnp-org:device:Leaf:1", ["urn:schemas-upnp-org:service:C:1"]), url="")]),
+                      url="/emb.xml")]),
+     "ops": [["search", {"st": "ssdp:all"}], ["search", {"st": "uuid:emb"}], ["search", {"st": "urn:schemas-upnp-org:service:B:1"}],
+             ["search", {"st": "urn:schemas-upnp-org:device:leaf:1"}], ["astart"], ["advance", 400000], ["astop"]]},
 ]
 
 
